@@ -74,10 +74,12 @@ def run(tier, seed, replay=None):
         rp = json.load(open(replay))
         reqs = [rp['request']] if 'request' in rp else []
     else:
-        kinds = ['flat', 'multi', 'nested', 'nested_big', 'unsized']
+        kinds = ['flat', 'multi', 'nested', 'nested_big', 'unsized', 'tworoots', 'nestedx']
+        seen = {}
         for i in range(n):
             k = kinds[i % len(kinds)]
-            cases.append(gen_nested_big(rng) if k == 'nested_big' else gp.gen_case(rng, k))
+            cases.append(gen_nested_big(rng) if k == 'nested_big' else gp.gen_case(rng, k, idx=seen.get(k, 0)))
+            seen[k] = seen.get(k, 0) + 1
         reqs = ['groups\t' + c.invocation().replace('\n', ' ') for c in cases]
     resp = cm.run_hook(reqs, exe_hook)
     stats = dict(accepted=0, rejected=0, unsupported=0, families=0, members=0, keys=0, nested_members=0, independence_checked=0)
